@@ -317,3 +317,77 @@ M("c14-silent-reorder-sum", "C14", "src/assignment_io.py", "                    
   "                            \",\".join([str(1 + e[1] - e[0]) for e in exon_blocks]),", expect="silent", note="arithmetic reordered")
 M("c14-silent-nested-if", "C14", ECM, "            if event.event_type == MatchEventSubtype.fake_terminal_exon_left and \\\n                    self.params.correct_fake_terminal_exons:",
   "            if self.params.correct_fake_terminal_exons and \\\n                    event.event_type == MatchEventSubtype.fake_terminal_exon_left:", expect="silent", note="conjuncts swapped")
+
+# ---------------------------------------------------------------- C03
+TPR = "src/transcript_printer.py"
+M("c03-no-continue", "C03", TPR, "                               (model.transcript_id, str(model.exon_blocks)))\n                continue\n",
+  "                               (model.transcript_id, str(model.exon_blocks)))\n", rule="G1", note="invalid models are warned about but still printed")
+M("c03-print-storage-directly", "C03", TPR, "            for model_index in gene_to_model_dict[gene_id]:\n                model = transcript_model_storage[model_index]\n                assert model.gene_id == gene_id\n",
+  "            for model in transcript_model_storage:\n                if model.gene_id != gene_id:\n                    continue\n",
+  rule="G1", note="printing loop bypasses the registry of validated models")
+M("c03-known-ends-corrected", "C03", GMC, "            if model.transcript_type == TranscriptModelType.known:\n                pre_filtered_storage.append(model)\n                continue\n            # check coverage",
+  "            if model.transcript_type == TranscriptModelType.known:\n                self.correct_novel_transcript_ends(model, self.transcript_read_ids[model.transcript_id])\n                pre_filtered_storage.append(model)\n                continue\n            # check coverage",
+  rule="G3", note="end correction applied to reference models (mutates the annotation's shared exon list)")
+M("c03-new-inplace-store", "C03", GMC, "            model.gene_id = transcript_to_new_gene_id[model.transcript_id]\n",
+  "            model.gene_id = transcript_to_new_gene_id[model.transcript_id]\n            model.exon_blocks[0] = (max(1, model.exon_blocks[0][0]), model.exon_blocks[0][1])\n",
+  rule="G3", note="a new unguarded in-place store into exon_blocks")
+M("c03-strand-from-gene", "C03", GI, "        transcript_model.strand = gene_info.isoform_strands[isoform_id]", "        transcript_model.strand = gene_info.gene_strands[gene_info.gene_id_map[isoform_id]]",
+  rule="G2", note="reference strand taken from the gene, not the transcript")
+M("c03-known-elsewhere", "C03", GMC, "                                        transcript_gene, [coordinates], transcript_type)",
+  "                                        transcript_gene, [coordinates], TranscriptModelType.known)", rule="G2",
+  note="a novel mono-exon model created with type known")
+M("c03-extended-filtered", "C03", TPR, "    for m in novel_model_storage:\n        all_models.append(m)\n\n    return all_models, gene_info",
+  "    for m in novel_model_storage:\n        if len(m.exon_blocks) > 1:\n            all_models.append(m)\n\n    return all_models, gene_info", rule="G2",
+  note="extended annotation silently drops mono-exon novel models")
+M("c03-silent-if-block", "C03", TPR, "            gene_id = model.gene_id\n            gene_to_model_dict[gene_id].append(i)\n",
+  "            gene_id = model.gene_id\n            registry_row = gene_to_model_dict[gene_id]\n            registry_row.append(i)\n", expect="silent", note="registry append through a local")
+
+# ---------------------------------------------------------------- C04
+M("c04-swapped-suffix", "C04", GMC, "                        transcript_type = TranscriptModelType.novel_in_catalog\n                        id_suffix = TranscriptNaming.nic_transcript_suffix",
+  "                        transcript_type = TranscriptModelType.novel_in_catalog\n                        id_suffix = TranscriptNaming.nnic_transcript_suffix", rule="N1", note="nnic suffix with nic type")
+M("c04-any-for-all", "C04", GMC, "                    if all(intron in self.known_introns for intron in intron_path):", "                    if any(intron in self.known_introns for intron in intron_path):",
+  rule="N1", note="one annotated intron suffices for nic")
+M("c04-known-introns-other", "C04", GMC, "        self.known_introns = set(self.gene_info.intron_profiles.features)", "        self.known_introns = set(self.intron_graph.intron_collector.clustered_introns.keys())",
+  rule="N1", note="known_introns built from read-derived introns")
+M("c04-path-mismatch", "C04", GMC, "                    if all(intron in self.known_introns for intron in intron_path):", "                    if all(intron in self.known_introns for intron in intron_path[1:]):",
+  rule="N1", note="first intron not tested")
+M("c04-drop-without-delete", "C04", GMC, "            if model.transcript_id in to_substitute:\n                #logger.debug(\"Novel model %s has a similar isoform %s\" % (model.transcript_id, to_substitute[model.transcript_id]))\n                self.delete_from_storage(model.transcript_id)\n                continue\n\n            filtered_storage.append(model)",
+  "            if model.transcript_id in to_substitute:\n                continue\n\n            filtered_storage.append(model)", rule="N2", note="second-pass duplicate dropped but its reads kept")
+M("c04-new-filter-no-delete", "C04", GMC, "            filtered_storage.append(model)\n\n        self.transcript_model_storage = filtered_storage\n\n    def delete_from_storage",
+  "            if model.strand == '.':\n                continue\n            filtered_storage.append(model)\n\n        self.transcript_model_storage = filtered_storage\n\n    def delete_from_storage",
+  rule="N2", note="a new drop path in pre_filter without delete_from_storage")
+M("c04-silent-issubset", "C04", GMC, "                    if all(intron in self.known_introns for intron in intron_path):", "                    if set(intron_path).issubset(self.known_introns):",
+  expect="silent", note="equivalent subset idiom")
+M("c04-silent-negated", "C04", GMC, None, None, expect="silent", note="guard negated and branches swapped",
+  edits=[(GMC, "                    if all(intron in self.known_introns for intron in intron_path):\n                        transcript_type = TranscriptModelType.novel_in_catalog\n                        id_suffix = TranscriptNaming.nic_transcript_suffix\n                    else:\n                        transcript_type = TranscriptModelType.novel_not_in_catalog\n                        id_suffix = TranscriptNaming.nnic_transcript_suffix",
+          "                    if any(intron not in self.known_introns for intron in intron_path):\n                        transcript_type = TranscriptModelType.novel_not_in_catalog\n                        id_suffix = TranscriptNaming.nnic_transcript_suffix\n                    else:\n                        transcript_type = TranscriptModelType.novel_in_catalog\n                        id_suffix = TranscriptNaming.nic_transcript_suffix")])
+
+# ---------------------------------------------------------------- C08
+MRM = "src/multimap_resolver.py"
+IG = "src/intron_graph.py"
+M("c08-swap-priority", "C08", MRM, "        if consistent_assignments:\n            return self.filter_assignments(assignment_list, consistent_assignments)\n\n        if primary_inconsistent:\n            return self.select_best_inconsistent(assignment_list, primary_inconsistent)",
+  "        if primary_inconsistent:\n            return self.select_best_inconsistent(assignment_list, primary_inconsistent)\n\n        if consistent_assignments:\n            return self.filter_assignments(assignment_list, consistent_assignments)",
+  rule="M1", note="primary inconsistent beats secondary consistent")
+M("c08-class-changed", "C08", MRM, "                if not a.multimapper and not a.assignment_type == ReadAssignmentType.ambiguous:\n                    primary_unique.append(i)",
+  "                if not a.assignment_type == ReadAssignmentType.ambiguous:\n                    primary_unique.append(i)", rule="M1",
+  note="secondary alignments enter the top class")
+M("c08-loser-not-suspended", "C08", MRM, "                assignment.assignment_type = ReadAssignmentType.suspended\n                assignment.gene_assignment_type = ReadAssignmentType.suspended",
+  "                assignment.gene_assignment_type = ReadAssignmentType.suspended", rule="M2", note="losers keep their assignment_type")
+M("c08-gate-removed", "C08", DSP, "                elif resolved_assignment.assignment_type == ReadAssignmentType.suspended:\n                    continue\n", "", rule="M2",
+  note="loader no longer drops suspended records")
+M("c08-gate-other-field", "C08", DSP, "                elif resolved_assignment.assignment_type == ReadAssignmentType.suspended:", "                elif resolved_assignment.gene_assignment_type == ReadAssignmentType.suspended:",
+  rule="M2", note="gate tests the gene field; ignore_multimapper only suspends assignment_type (two sites, each fine alone)")
+M("c08-evidence-loop-unguarded", "C08", IG, "            if assignment.multimapper or any(intron in self.intron_collector.discarded_introns for intron in assignment.corrected_introns):",
+  "            if any(intron in self.intron_collector.discarded_introns for intron in assignment.corrected_introns):", rule="M3",
+  note="graph edges built from multimappers")
+M("c08-terminal-unguarded", "C08", IG, "            if assignment.multimapper or not assignment.corrected_introns:\n                continue\n            if any(intron in self.intron_collector.discarded_introns for intron in\n                   assignment.corrected_introns):",
+  "            if not assignment.corrected_introns:\n                continue\n            if any(intron in self.intron_collector.discarded_introns for intron in\n                   assignment.corrected_introns):",
+  rule="M3", note="terminal positions collected from multimappers")
+M("c08-field-one-ctor", "C08", ISO, "        self.penalty_score = 0.0\n        self.isoforms = []", "        self.penalty_score = 0.0\n        self.mapq = read_assignment.mapping_quality\n        self.isoforms = []",
+  rule="M4", note="field added to the high-memory constructor only")
+M("c08-start-from-corrected", "C08", ISO, "        exons = read_list_of_pairs(infile, read_int)\n        read_assignment.start = exons[0][0]\n        read_assignment.end = exons[-1][1]\n        read_list_of_pairs(infile, read_int)",
+  "        read_list_of_pairs(infile, read_int)\n        exons = read_list_of_pairs(infile, read_int)\n        read_assignment.start = exons[0][0]\n        read_assignment.end = exons[-1][1]",
+  rule="M4", note="default path takes start/end from corrected exons, high-memory path from original exons (duplicate detection differs)")
+M("c08-silent-rename-list", "C08", MRM, None, None, expect="silent", note="rename an index list",
+  edits=[(MRM, "        noninformative = []\n", "        uninformative = []\n"), (MRM, "                noninformative.append(i)", "                uninformative.append(i)"),
+         (MRM, "        if noninformative:\n            return self.select_noninformative(assignment_list, noninformative)", "        if uninformative:\n            return self.select_noninformative(assignment_list, uninformative)")])
